@@ -129,17 +129,22 @@ func generateTempKeys(nonceSecond, nonceServer *big.Int) (key, iv []byte) {
 		panic("nonceServer is nil")
 	}
 
+	// big.Int.Bytes() drops leading zero bytes, but the nonces are fixed-width
+	// byte strings (int256 and int128): restore the width before mixing them.
+	second := fixedBytes(nonceSecond, 32)
+	server := fixedBytes(nonceServer, 16)
+
 	// nonceSecond + nonceServer
 	t1 := make([]byte, 48)
-	copy(t1[0:], nonceSecond.Bytes())
-	copy(t1[32:], nonceServer.Bytes())
+	copy(t1[0:], second)
+	copy(t1[32:], server)
 	// SHA1 of nonceSecond + nonceServer
 	hash1 := dry.Sha1Byte(t1)
 
 	// nonceServer + nonceSecond
 	t2 := make([]byte, 48)
-	copy(t2[0:], nonceServer.Bytes())
-	copy(t2[16:], nonceSecond.Bytes())
+	copy(t2[0:], server)
+	copy(t2[16:], second)
 	// SHA1 of nonceServer + nonceSecond
 	hash2 := dry.Sha1Byte(t2)
 
@@ -151,8 +156,8 @@ func generateTempKeys(nonceSecond, nonceServer *big.Int) (key, iv []byte) {
 	copy(tmpAESKey[20:], hash2[0:12])
 
 	t3 := make([]byte, 64) // nonceSecond + nonceSecond
-	copy(t3[0:], nonceSecond.Bytes())
-	copy(t3[32:], nonceSecond.Bytes())
+	copy(t3[0:], second)
+	copy(t3[32:], second)
 	hash3 := dry.Sha1Byte(t3) // SHA1 of nonceSecond + nonceSecond
 
 	// substr (SHA1(server_nonce + new_nonce), 12, 8) + SHA1(new_nonce + new_nonce) + substr (new_nonce, 0, 4);
@@ -162,7 +167,19 @@ func generateTempKeys(nonceSecond, nonceServer *big.Int) (key, iv []byte) {
 	// SHA1 of nonceSecond + nonceSecond
 	copy(tmpAESIV[8:], hash3)
 	// substr (nonceSecond, 0, 4)
-	copy(tmpAESIV[28:], nonceSecond.Bytes()[0:4])
+	copy(tmpAESIV[28:], second[0:4])
 
 	return tmpAESKey, tmpAESIV
+}
+
+// fixedBytes returns the big-endian bytes of n left-padded with zeros to size bytes.
+// A value that does not fit into size bytes is returned as is.
+func fixedBytes(n *big.Int, size int) []byte {
+	b := n.Bytes()
+	if len(b) >= size {
+		return b
+	}
+	res := make([]byte, size)
+	copy(res[size-len(b):], b)
+	return res
 }
